@@ -202,7 +202,9 @@ where
         }
     };
     let (psz, ssz) = (point_size::<G>(), scalar_size::<G>());
-    let k = po.st.model.k();
+    // round count from the gate count the real system reported (not from the model)
+    let (rn1, rn2) = real_gate_counts(&po.st.trace);
+    let k = (rn1 + rn2).next_power_of_two().trailing_zeros() as usize;
     let b1 = proof.to_bytes().unwrap_or_default();
     let b2 = proof.to_bytes().unwrap_or_default();
     o.evals += 1;
